@@ -310,6 +310,7 @@ def units(tier):
         us += [('riemann/%s/side' % pat, {'kind': 'ri', 'pat': pat, 'fam': 'side'}), ('riemann/%s/states' % pat, {'kind': 'ri', 'pat': pat, 'fam': 'states'})]
     us.append(('mader', {'kind': 'ma'}))
     us.append(('sdrz', {'kind': 'sdrz'}))
+    us.append(('ehep', {'kind': 'ehep'}))
     us += [('sedov/geometry=%d' % j_, {'kind': 'sedov', 'key': j_}) for j_ in (1, 2, 3)]
     us.append(('bounded', {'kind': 'bd', 'tier': tier}))
     return us
@@ -322,6 +323,9 @@ def run_unit(name, kind, key=None, pat=None, fam=None, tier='quick'):
     if kind == 'sdrz':
         from props import sdrz_kit
         return sdrz_kit.unit_admissible()
+    if kind == 'ehep':
+        from props import ehep_kit
+        return ehep_kit.unit_admissible()
     if kind == 'sedov':
         from props import sedov_kit
         return sedov_kit.unit_shock('C17', key)
